@@ -8,6 +8,7 @@ package vh
 
 import (
 	"fmt"
+	"github.com/semihalev/twig"
 	"strings"
 	"testing"
 
@@ -168,6 +169,11 @@ func checkC13(c C13Case) error {
 	}
 	if rd.Err == "" && rd.Out != rt.Out {
 		return fmt.Errorf("dashed output %s, hand-trimmed output %s; dashed templates:%s\nhand-trimmed:%s", q(rd.Out), q(rt.Out), showSources(srcD), showSources(srcT))
+	}
+	// the dashed template written out through RenderTo (texts trimmed to nothing are written too)
+	mk := func() *twig.Engine { e := newEngine(srcD); NewSpies().Install(e); return e }
+	if err := writersAgree(mk, "main", c.Ctx.Go(), rd); err != nil {
+		return fmt.Errorf("%v; dashed templates:%s", err, showSources(srcD))
 	}
 	return nil
 }
